@@ -849,6 +849,13 @@ func sendsExactlyOnce(w *World, f *Func, stmts []ast.Stmt) (bool, string) {
 			walk(rest, count+1, cont)
 		case *ast.ReturnStmt:
 			paths = append(paths, count)
+		case *ast.BranchStmt:
+			// loops are not entered by this walk: a break met here leaves the switch arm, which ends the path
+			if s.Tok == token.BREAK && s.Label == nil {
+				paths = append(paths, count)
+			} else {
+				paths = append(paths, 99)
+			}
 		case *ast.BlockStmt:
 			walk(s.List, count, func(n int) { walk(rest, n, cont) })
 		case *ast.IfStmt:
